@@ -60,10 +60,10 @@ def check(ctx: Ctx, ev: Evidence) -> list[Finding]:
             # the three NAK kinds are told apart by what they request, not by the name of the function that builds them
             if repr(eos) == "$_DestFileParams.file_size_eof" or any("tracker.lost_segments" in repr(t) for t in items):
                 kind = "deferred"
-            elif any("last_end_offset" in repr(t) for t in items) or "pkt.offset" in repr(eos):
-                kind = "immediate"
             elif mm is True:
                 kind = "before-metadata"
+            elif any("last_end_offset" in repr(t) for t in items) or "pkt.offset" in repr(eos):
+                kind = "immediate"
             else:
                 kind = "unknown"
             if kind == "deferred":
@@ -120,12 +120,16 @@ def check(ctx: Ctx, ev: Evidence) -> list[Finding]:
     if len(cands) != 1:
         raise AnalysisError(f"deferred NAK builder not found (functions deriving the NAK capacity: {len(cands)})")
     fi = cands[0]
+    from ..astq import normalised
+    import types as _types
+    # extract-method / local-alias reshapings are undone before the idiom is matched
+    fi = _types.SimpleNamespace(node=normalised(prog, cands[0]), qualname=cands[0].qualname, file=cands[0].file, module=cands[0].module)
     caps = [s for s in ast.walk(fi.node) if isinstance(s, ast.Assign) and isinstance(s.value, ast.Call) and "get_max_seg_reqs_for_max_packet_size_and_pdu_cfg" in ast.unparse(s.value.func)]
     ok = len(caps) == 1 and "max_packet_len" in ast.unparse(caps[0].value.args[0]) and "pdu_conf" in ast.unparse(caps[0].value.args[1])
     cap = ast.unparse(caps[0].targets[0]) if caps else "?"
-    ev.inst("C06-R2", f"capacity {cap} = get_max_seg_reqs_...(remote max_packet_len, pdu_conf)", "ok" if ok else "violation", loc(fi, fi.node))
+    ev.inst("C06-R2", f"capacity {cap} = get_max_seg_reqs_...(remote max_packet_len, pdu_conf)", "ok" if ok else "violation", loc(cands[0], fi.node))
     if not ok:
-        out.append(Finding("C06-R2", f"{fi.qualname} | capacity", "the per-PDU request capacity is not derived from the remote maximum packet length and the PDU configuration", loc(fi, fi.node)))
+        out.append(Finding("C06-R2", f"{fi.qualname} | capacity", "the per-PDU request capacity is not derived from the remote maximum packet length and the PDU configuration", loc(cands[0], fi.node)))
     loops = [n for n in ast.walk(fi.node) if isinstance(n, ast.For)]
     if len(loops) != 1:
         raise AnalysisError(f"deferred NAK builder: expected one batching loop, found {len(loops)}")
@@ -134,9 +138,9 @@ def check(ctx: Ctx, ev: Evidence) -> list[Finding]:
     app_i = next((i for i, s in enumerate(body) if isinstance(s, ast.Expr) and isinstance(s.value, ast.Call) and isinstance(s.value.func, ast.Attribute) and s.value.func.attr == "append"), None)
     batch = ast.unparse(body[app_i].value.func.value) if app_i is not None else "?"
     first_is_append = app_i == 0
-    ev.inst("C06-R2", f"every tracked range is appended to {batch} unconditionally first: {first_is_append}", "ok" if first_is_append else "violation", loc(fi, lp))
+    ev.inst("C06-R2", f"every tracked range is appended to {batch} unconditionally first: {first_is_append}", "ok" if first_is_append else "violation", loc(cands[0], lp))
     if not first_is_append:
-        out.append(Finding("C06-R2", f"{fi.qualname} | append not first", "a tracked range can be skipped: the append is not the first unconditional statement of the batching loop", loc(fi, lp)))
+        out.append(Finding("C06-R2", f"{fi.qualname} | append not first", "a tracked range can be skipped: the append is not the first unconditional statement of the batching loop", loc(cands[0], lp)))
     flush = [s for s in body if isinstance(s, ast.If)]
     okf = False
     if len(flush) == 1 and isinstance(flush[0].test, ast.Compare) and len(flush[0].test.ops) == 1 and isinstance(flush[0].test.ops[0], (ast.Eq, ast.GtE)):
@@ -145,33 +149,38 @@ def check(ctx: Ctx, ev: Evidence) -> list[Finding]:
         resets = any(isinstance(s, ast.Assign) and ast.unparse(s.targets[0]) == batch and isinstance(s.value, ast.List) and not s.value.elts for s in flush[0].body)
         no_skip = not any(isinstance(n, (ast.Continue, ast.Break)) for n in ast.walk(flush[0]))
         okf = f"len({batch})" in t and cap in t and sends and resets and no_skip and body.index(flush[0]) > (app_i or 0)
-    ev.inst("C06-R2", f"flush when len({batch}) reaches {cap}: sends, resets the batch, skips nothing: {okf}", "ok" if okf else "violation", loc(fi, lp))
+    ev.inst("C06-R2", f"flush when len({batch}) reaches {cap}: sends, resets the batch, skips nothing: {okf}", "ok" if okf else "violation", loc(cands[0], lp))
     if not okf:
-        out.append(Finding("C06-R2", f"{fi.qualname} | flush test", "the batch is not flushed exactly when it reaches the capacity (send, reset, no skipped element)", loc(fi, lp)))
+        out.append(Finding("C06-R2", f"{fi.qualname} | flush test", "the batch is not flushed exactly when it reaches the capacity (send, reset, no skipped element)", loc(cands[0], lp)))
     after = [s for s in fi.node.body if isinstance(s, ast.If) and s.lineno > lp.lineno and f"len({batch}) > 0" in ast.unparse(s.test)]
     okr = len(after) == 1 and any(isinstance(n, ast.Call) and "NakPdu" in ast.unparse(n.func) for n in ast.walk(after[0]))
-    ev.inst("C06-R2", f"remainder flushed after the loop: {okr}", "ok" if okr else "violation", loc(fi, lp))
+    ev.inst("C06-R2", f"remainder flushed after the loop: {okr}", "ok" if okr else "violation", loc(cands[0], lp))
     if not okr:
-        out.append(Finding("C06-R2", f"{fi.qualname} | remainder", "requests left in the batch after the loop are not sent", loc(fi, lp)))
-    # ---- R5
-    # anchor by content: the function comparing the progress with the EOF's file size
-    c5 = [f for f in prog.functions.values() if f.cls == DH and any(isinstance(n, ast.Compare) and "progress" in ast.unparse(n.left) and "file_size_eof" in ast.unparse(n) and not isinstance(n.ops[0], (ast.Is, ast.IsNot)) and "offset" not in ast.unparse(n) for n in ast.walk(f.node))]
-    if not c5:
-        raise AnalysisError("no function of the destination handler compares the progress with the EOF file size")
-    f5 = c5[0]
-    gt = lt = False
-    for n in ast.walk(f5.node):
-        if isinstance(n, ast.Compare) and len(n.ops) == 1 and "progress" in ast.unparse(n.left) and "file_size_eof" in ast.unparse(n.comparators[0]):
-            gt = gt or isinstance(n.ops[0], ast.Gt)
-            lt = lt or isinstance(n.ops[0], ast.Lt)
-    adds = any(isinstance(n, ast.Call) and isinstance(n.func, ast.Attribute) and n.func.attr == "add_lost_segment" and "progress" in ast.unparse(n.args[0]) and "file_size_eof" in ast.unparse(n.args[0]) for n in ast.walk(f5.node))
-    fault = any(isinstance(n, ast.Call) and "FILE_SIZE_ERROR" in ast.unparse(n) for n in ast.walk(f5.node))
-    ev.inst("C06-R5", f"progress > EOF size handled (size fault): {gt and fault}", "ok" if gt and fault else "violation", loc(f5, f5.node))
-    ev.inst("C06-R5", f"progress < EOF size handled (tail gap (progress, EOF size) recorded): {lt and adds}", "ok" if lt and adds else "violation", loc(f5, f5.node))
-    if not (gt and fault):
-        out.append(Finding("C06-R5", f"{f5.qualname} | progress > EOF size", "an EOF announcing fewer bytes than already received does not declare the file size fault", loc(f5, f5.node)))
-    if not (lt and adds):
-        out.append(Finding("C06-R5", f"{f5.qualname} | tail gap", "the gap between the last received byte and the EOF file size is not recorded as lost", loc(f5, f5.node)))
+        out.append(Finding("C06-R2", f"{fi.qualname} | remainder", "requests left in the batch after the loop are not sent", loc(cands[0], lp)))
+    # ---- R5 (on the ATS: which EOF (no error) edges of an acknowledged reception record the tail gap / declare the size fault)
+    tail = size_fault = False
+    n_eof = 0
+    for e in a.edges:
+        if e.label != ("state_machine", "EOF") or e.exc is not None:
+            continue
+        if not any(k == ("pkt", "condition_code") and ename(v) == "NO_ERROR" for k, v in e.ch):
+            continue
+        n_eof += 1
+        for x in e.ev:
+            if x.kind == "tracker" and x.name == "add_lost_segment" and isinstance(x.args[0], Tup) and len(x.args[0].items) == 2:
+                lo, hi = (repr(t) for t in x.args[0].items)
+                if "progress" in lo and ("file_size" in hi):
+                    tail = True
+            if x.kind == "env" and x.name.startswith("fault.") and ename(x.args[1]) == "FILE_SIZE_ERROR":
+                size_fault = True
+    if n_eof == 0:
+        raise AnalysisError("no EOF (no error) edge in the destination ATS")
+    ev.inst("C06-R5", f"progress > EOF size handled (size fault declared on some EOF edge): {size_fault}", "ok" if size_fault else "violation")
+    ev.inst("C06-R5", f"progress < EOF size handled (tail gap (progress, EOF size) recorded on some EOF edge): {tail}", "ok" if tail else "violation")
+    if not size_fault:
+        out.append(Finding("C06-R5", "dest handler | EOF (no error) | progress > EOF size", "an EOF announcing fewer bytes than already received does not declare the file size fault", ""))
+    if not tail:
+        out.append(Finding("C06-R5", "dest handler | EOF (no error) | tail gap", "the gap between the last received byte and the EOF file size is not recorded as lost", ""))
     # R7: objects handed to a PDU constructor are not mutated afterwards (the PDU keeps the list by reference)
     from ..astq import mutation_after_escape
     ev.rule("C06-R7", "a list handed to a PDU constructor is not mutated afterwards in the same function (spacepackets PDUs keep their list arguments by reference and fix length fields at construction)", 1)
